@@ -1,0 +1,50 @@
+//! Verification hooks, compiled only with the cargo feature `verif-hooks`.
+//!
+//! This module only forwards to crate-private leaf functions so that an external
+//! harness can execute them over their whole domain. It adds no behaviour.
+
+pub use crate::fixed::verif_hooks::{is_ligature_making_kar, LayoutProbe};
+use crate::suggestion::Rank;
+use crate::utility::{smart_quoter, SplittedString, Utility};
+
+/// `keycodes::keycode_to_char` (panics on an unknown key, like the original).
+pub fn keycode_to_char(key: u16) -> char {
+    crate::keycodes::keycode_to_char(key)
+}
+
+/// `Utility::is_vowel`
+pub fn is_vowel(c: char) -> bool {
+    c.is_vowel()
+}
+
+/// `Utility::is_kar`
+pub fn is_kar(c: char) -> bool {
+    c.is_kar()
+}
+
+/// `Utility::is_pure_consonant`
+pub fn is_pure_consonant(c: char) -> bool {
+    c.is_pure_consonant()
+}
+
+/// `utility::get_modifiers`
+pub fn get_modifiers(modifier: u8) -> (bool, bool) {
+    crate::utility::get_modifiers(modifier)
+}
+
+/// `SplittedString::split`, returned as owned `(preceding, word, trailing)`.
+pub fn split(input: &str, include_colon: bool) -> (String, String, String) {
+    let s = SplittedString::split(input, include_colon);
+    (s.preceding().to_owned(), s.word().to_owned(), s.trailing().to_owned())
+}
+
+/// `smart_quoter(SplittedString::split(..))`, returned as owned `(preceding, word, trailing)`.
+pub fn split_smart_quoted(input: &str, include_colon: bool) -> (String, String, String) {
+    let s = smart_quoter(SplittedString::split(input, include_colon));
+    (s.preceding().to_owned(), s.word().to_owned(), s.trailing().to_owned())
+}
+
+/// `Rank::new_suggestion`
+pub fn rank_new_suggestion(item: String, base: &str) -> Rank {
+    Rank::new_suggestion(item, base)
+}
